@@ -403,7 +403,8 @@ func (a *Act) invoke(st *State, com *ssa.CallCommon, pos tokenPos) Val {
 	name := com.Method.Name()
 	if fc := a.top.fc; fc != nil {
 		for _, c := range fc.Callbacks {
-			if c == name {
+			// a name that the contract uses for a statically called function is not also an interface callback
+			if c == name && !a.top.staticTraced[name] {
 				a.u.Trusted["assumed: interface method "+name+" does not touch the modelled heap ("+fnName(a.fn)+")"] = true
 				res := a.freshResult(st, sig)
 				if fc.CallbackRank != nil {
